@@ -542,15 +542,24 @@ def param_mutations(f: Func, pname: str) -> list[ast.AST]:
     """Statements of f that change the mapping/list passed in as parameter `pname` in place (update/setdefault/pop/...,
     item assignment or deletion) - the caller's object, which outlives the call."""
     out = []
+    # plain aliases (`thresholds = config`, also `x = config if c else {}`): the same object under another name
+    names = {pname}
+    for _ in range(2):
+        for n in ast.walk(f.node):
+            if isinstance(n, ast.Assign) and len(n.targets) == 1 and isinstance(n.targets[0], ast.Name) and n.targets[0].id != pname:
+                v = n.value
+                alts = [v.body, v.orelse] if isinstance(v, ast.IfExp) else v.values if isinstance(v, ast.BoolOp) else [v]
+                if any(isinstance(a, ast.Name) and a.id in names for a in alts):
+                    names.add(n.targets[0].id)
     for n in ast.walk(f.node):
-        if isinstance(n, ast.Call) and isinstance(n.func, ast.Attribute) and n.func.attr in MODULE_MUT and isinstance(n.func.value, ast.Name) and n.func.value.id == pname:
+        if isinstance(n, ast.Call) and isinstance(n.func, ast.Attribute) and n.func.attr in MODULE_MUT and isinstance(n.func.value, ast.Name) and n.func.value.id in names:
             out.append(n)
         elif isinstance(n, (ast.Assign, ast.AugAssign, ast.Delete)):
             for t in (n.targets if isinstance(n, (ast.Assign, ast.Delete)) else [n.target]):
-                if isinstance(t, ast.Subscript) and isinstance(t.value, ast.Name) and t.value.id == pname:
+                if isinstance(t, ast.Subscript) and isinstance(t.value, ast.Name) and t.value.id in names:
                     out.append(n)
             # `config |= other` / `items += more` update the caller's dict / list in place
-            if isinstance(n, ast.AugAssign) and isinstance(n.target, ast.Name) and n.target.id == pname and isinstance(n.op, (ast.BitOr, ast.Add)):
+            if isinstance(n, ast.AugAssign) and isinstance(n.target, ast.Name) and n.target.id in names and isinstance(n.op, (ast.BitOr, ast.Add)):
                 out.append(n)
     rebound = any(isinstance(n, ast.Assign) and any(isinstance(t, ast.Name) and t.id == pname for t in n.targets) for n in ast.walk(f.node))
     return [] if rebound else out   # `config = dict(config)` first: a private copy is being changed
